@@ -31,6 +31,7 @@ FRAGMENTS = [
     ("Physics", "gen_physics"),
     ("WakeMap", "gen_wakemap"),
     ("H5Read", "gen_h5read"),
+    ("PPlates", "gen_pplates"),
 ]
 
 
